@@ -25,6 +25,7 @@ import itertools
 import json
 import os
 import sys
+import time
 from io import BytesIO
 
 from common import Check, CoqError, coq_bytes, coq_list, coq_N, coq_nat, mkdata, VERIF
@@ -41,7 +42,8 @@ import udpcl.config as uconfig
 #: failure with one of these signatures is printed but does not fail the run.
 PENDING_FINDINGS = []
 
-BIG = 3000  # bundles longer than this are compared by (length, prefix, digest) per datagram
+BIG = 3000   # bundles longer than this go to their own (small) shards of Coq evaluation
+FULL = 200   # datagrams of bundles up to this length are compared octet for octet, longer ones by (length, first 24 octets, digest)
 
 PEERS = {1: ('10.0.0.1', 4556), 2: ('10.0.0.1', 4557), 3: ('10.0.0.2', 4556)}
 
@@ -103,10 +105,34 @@ def feasible(mtu, xid, total):
 
 
 def digest(data):
-    acc = 2166136261
+    ''' Adler-32, as Model/Udpcl.v [digest] '''
+    (s1, s2) = (1, 0)
     for octet in data:
-        acc = (acc * 16777619 + octet) % 4294967296
-    return acc
+        s1 += octet
+        if s1 >= 65521:
+            s1 -= 65521
+        s2 += s1
+        if s2 >= 65521:
+            s2 -= 65521
+    return s2 * 65536 + s1
+
+
+def pattern(seed, length):
+    ''' Same generator as Model/Udpcl.v [pattern]. '''
+    (a, b, c) = (seed % 256, (seed // 256) % 256, (seed // 65536) % 256)
+    out = bytearray()
+    for _ in range(length):
+        a = a + 7 if a + 7 < 256 else a + 7 - 256
+        if a < 7:
+            b = b + 13 if b + 13 < 256 else b + 13 - 256
+            if b < 13:
+                c = c + 29 if c + 29 < 256 else c + 29 - 256
+        out.append(a ^ b ^ c)
+    return bytes(out)
+
+
+def gen_data(seed, length):
+    return pattern(seed, length) if length > BIG else mkdata(seed, length)
 
 
 # ----------------------------------------------------------------------------------------------
@@ -263,7 +289,7 @@ def oracle_xfers(xfers, arrival, dgram_lists, obs):
     transfer while one of its datagrams has not arrived; a (peer, transfer)
     whose datagrams arrive exactly once each yields exactly one copy, queued by
     its last datagram; no exception escapes. '''
-    datas = [mkdata(seed, length) for (_m, _x, seed, length) in xfers]
+    datas = [gen_data(seed, length) for (_m, _x, seed, length) in xfers]
     if any(raised for (_n, raised) in obs['trace']):
         return 'exception escaped the receive function'
     if len(obs['signals']) != len(obs['queue']) or obs['left']:
@@ -399,7 +425,7 @@ def gen_send_cases(chk, scale=1):
             for mult in (1, 2, 3, 5):
                 for delta in (-1, 0, 1):
                     length = rem * mult + delta
-                    if length <= (4000 if quick else 40000):
+                    if length <= (1500 if quick else 40000):
                         add(mtu, length, xid)
             # offsets / fragment lengths crossing a head-size boundary
             for edge in (24, 256):
@@ -408,25 +434,28 @@ def gen_send_cases(chk, scale=1):
 
     mtus = [8, 9, 10, 11, 12, 15, 20, 23, 24, 25, 26, 30, 33, 34, 35, 36, 40, 48, 64, 100, 128, 255, 256, 257,
             270, 300, 576, 1280, 1400, 1500]
+    if quick:
+        mtus = [8, 10, 12, 24, 25, 26, 35, 36, 40, 64, 256, 257, 300, 1400]
     for mtu in mtus:
         around(mtu, 0)
-        around(mtu, rng.choice(XIDS))
+        if not quick or mtu in (12, 36, 40, 300):
+            around(mtu, rng.choice(XIDS))
     for xid in XIDS:
         for mtu in (20, 40, 300):
             for length in (mtu - 1, mtu, mtu + 7, 2 * mtu, 300, 700):
                 add(mtu, length, xid)
     # long bundles: total / offset heads of 3 and 5 octets
-    for (mtu, length) in [(1400, 65535), (1400, 65536), (1400, 65537), (300, 65536), (9000, 70000),
-                          (65535, 65535), (65536, 65536), (65537, 65536), (65535, 65536), (65536, 65537),
-                          (65536, 131072), (40000, 65536), (40000, 65535), (200, 20000), (64, 9000)]:
-        add(mtu, length, 0)
-        add(mtu, length, 2 ** 32)
+    longs = [(1400, 65535), (1400, 65536), (65536, 65536), (65535, 65536), (600, 65536), (40000, 65537), (200, 9000)]
     if not quick:
-        for (mtu, length) in [(24, 65536), (30, 70000), (65537, 200000), (1280, 300000), (100, 66000)]:
-            add(mtu, length, 7)
+        longs += [(1400, 65537), (9000, 70000), (65535, 65535), (65537, 65536), (65536, 65537), (65536, 131072),
+                  (40000, 65535), (64, 9000), (300, 65536), (200, 20000), (70000, 200000), (24, 65536), (30, 70000), (65537, 200000), (1280, 300000), (100, 66000)]
+    for (mtu, length) in longs:
+        add(mtu, length, 0)
+        if not quick or mtu == 1400:
+            add(mtu, length, 2 ** 32)
     for length in (0, 1, 23, 24, 255, 256, 1500, 65535, 65536, 100000):
         add(None, length, 3)
-    count = (120 if quick else 2500) * scale
+    count = (80 if quick else 2500) * scale
     for _ in range(count):
         mtu = rng.choice([rng.randrange(8, 40), rng.randrange(8, 300), rng.randrange(8, 2000)])
         add(mtu, rng.choice([rng.randrange(0, 3 * mtu), rng.randrange(0, 40 * mtu)]) % 12000)
@@ -499,7 +528,7 @@ def gen_xfer_cases(chk, scale=1):
                 # second transfer of peer 1 and the first transfer again from peers 2 and 3, shuffled in
                 extra = [(2, 0, dix) for dix in range(nseg)] + [(3, 0, dix) for dix in rng.sample(range(nseg), nseg - 1)]
                 if nother is None:
-                    nother = len(real_send(*other[:2], mkdata(other[2], other[3]))[0])
+                    nother = len(real_send(*other[:2], gen_data(other[2], other[3]))[0])
                 extra += [(1, 1, dix) for dix in range(nother)]
                 rng.shuffle(extra)
                 for item in extra:
@@ -627,6 +656,14 @@ class Runner(object):
         self.chk = chk
         self.mismatch = {}
         self.pending = {}
+        self.phases = {}
+        self._mark = (time.time(), sum(os.times()[:4]))
+
+    def phase(self, name):
+        ''' wall / CPU seconds (this process and its children) since the previous mark '''
+        now = (time.time(), sum(os.times()[:4]))
+        self.phases[name] = dict(wall_s=round(now[0] - self._mark[0], 1), cpu_s=round(now[1] - self._mark[1], 1))
+        self._mark = now
 
     def note_mismatch(self, suite, detail):
         self.mismatch.setdefault(suite, []).append(detail)
@@ -640,7 +677,7 @@ class Runner(object):
     # -- single-case checkers (also used by --replay and by the search) -------------------------
     def check_send(self, case, dgrams, terminated):
         (mtu, xid, seed, length) = case
-        res = oracle_send(mtu, xid, mkdata(seed, length), dgrams, terminated)
+        res = oracle_send(mtu, xid, gen_data(seed, length), dgrams, terminated)
         if res is None:
             return None
         (why, klass) = res
@@ -651,7 +688,7 @@ class Runner(object):
     def impl_xfers(self, xfers, arrival):
         lists = []
         for (mtu, xid, seed, length) in xfers:
-            (dgrams, term) = real_send(mtu, xid, mkdata(seed, length))
+            (dgrams, term) = real_send(mtu, xid, gen_data(seed, length))
             self.check_send((mtu, xid, seed, length), dgrams, term)
             lists.append(dgrams)
         if any(dix >= len(lists[tix]) for (_p, tix, dix) in arrival):
@@ -694,7 +731,7 @@ def run_all(chk):
     send_impl = []
     for case in send_cases:
         (mtu, xid, seed, length) = case
-        (dgrams, term) = real_send(mtu, xid, mkdata(seed, length))
+        (dgrams, term) = real_send(mtu, xid, gen_data(seed, length))
         send_impl.append((dgrams, term))
         run.check_send(case, dgrams, term)
         nseg = len(dgrams)
@@ -708,26 +745,25 @@ def run_all(chk):
         chk.count('send_mtu', 'none' if mtu is None else ('<=24' if mtu <= 24 else ('25-256' if mtu <= 256 else ('257-65535' if mtu < 65536 else '>=65536'))))
         if mtu is not None and nseg >= 2:
             chk.count('send_boundary', 'largest datagram == mtu' if tight else 'largest datagram < mtu')
+    run.phase('send:real')
     small = [pos for (pos, case) in enumerate(send_cases) if case[3] <= BIG]
     large = [pos for (pos, case) in enumerate(send_cases) if case[3] > BIG]
-    model_small = chk.coq_eval('send', ['Model.Udpcl'], [c_send(*send_cases[pos]) for pos in small], 'run_send', chunk=40)
-    model_large = chk.coq_eval('sendbig', ['Model.Udpcl'], [c_send(*send_cases[pos]) for pos in large], 'run_send_big', chunk=2)
-    for (pos, mod) in zip(small, model_small):
+    model_small = chk.coq_eval('send', ['Model.Udpcl'], [c_send(*send_cases[pos]) for pos in small], 'run_send_view',
+                               chunk=max(20, -(-len(small) // 16)))
+    run.phase('send:coq-small(%d)' % len(small))
+    model_large = chk.coq_eval('sendbig', ['Model.Udpcl'], [c_send(*send_cases[pos]) for pos in large], 'run_send_view',
+                               chunk=max(1, -(-len(large) // 16)))
+    run.phase('send:coq-large(%d)' % len(large))
+    for (pos, mod) in list(zip(small, model_small)) + list(zip(large, model_large)):
         (dgrams, term) = send_impl[pos]
-        got = [bytes(d) for d in mod[0]] if mod else None
-        want = dgrams if term else None
+        full = send_cases[pos][3] <= FULL
+        got = [(ent[0], bytes(ent[1]), ent[2]) for ent in mod[0]] if mod else None
+        want = [(len(d), d if full else d[:24], digest(d)) for d in dgrams] if term else None
         if got != want:
             run.note_mismatch('send', 'mtu=%s xid=%d len=%d: datagrams differ (model %s, real %s)' % (
                 send_cases[pos][0], send_cases[pos][1], send_cases[pos][3],
                 'never ends' if got is None else '%d datagram(s)' % len(got),
                 'never ends' if want is None else '%d datagram(s)' % len(want)))
-    for (pos, mod) in zip(large, model_large):
-        (dgrams, term) = send_impl[pos]
-        got = [(ent[0], bytes(ent[1]), ent[2]) for ent in mod[0]] if mod else None
-        want = [(len(d), d[:24], digest(d)) for d in dgrams] if term else None
-        if got != want:
-            run.note_mismatch('send', 'mtu=%s xid=%d len=%d: datagrams differ (length/prefix/digest)' % (
-                send_cases[pos][0], send_cases[pos][1], send_cases[pos][3]))
     chk.obligation('correspondence:send', not run.mismatch.get('send'), '; '.join(run.mismatch.get('send', [])[:3]))
 
     # ---- (b) receive: the sender's own datagrams -----------------------------------------------
@@ -745,7 +781,8 @@ def run_all(chk):
                                           finished_counts=[n for (n, _r) in obs['trace']])) if kind in ('interleaved', 'duplicates') and len(arrival) <= 12 else None)
         chk.count('recv_kind', kind)
         chk.count('recv_arrivals', len(arrival) if len(arrival) <= 5 else ('6-12' if len(arrival) <= 12 else '>12'))
-    model = chk.coq_eval('xfers', ['Model.Udpcl'], [c_xfers(xf, arr) for (xf, arr, _k) in xfer_cases], 'run_xfers', chunk=60)
+    run.phase('xfers:real(%d)' % len(xfer_cases))
+    model = chk.coq_eval('xfers', ['Model.Udpcl'], [c_xfers(xf, arr) for (xf, arr, _k) in xfer_cases], 'run_xfers', chunk=max(30, -(-len(xfer_cases) // 16)))
     for ((xfers, arrival, kind), (lists, obs), mod) in zip(xfer_cases, xfer_impl, model):
         if obs is None:
             continue
@@ -762,6 +799,7 @@ def run_all(chk):
             run.note_mismatch('recv', '%s transfers=%s arrival=%s: transfers in progress differ: model %s real %s' % (
                 kind, xfers, arrival, canon_prog(m_prog), canon_prog(obs['progress'])))
 
+    run.phase('xfers:coq')
     # ---- (c) several messages / padding per datagram -------------------------------------------
     multi_cases = gen_multi_cases(chk)
     recv_cases = []
@@ -781,7 +819,8 @@ def run_all(chk):
         recv_cases.append((arrival, obs))
         chk.case(('recv', tuple(arrival)), nontrivial=len(arrival) > 1, sample=None)
         chk.count('recv_crafted_outcome', 'raised' if any(r for (_n, r) in obs['trace']) else ('queued' if obs['queue'] else 'nothing-queued'))
-    model = chk.coq_eval('recv', ['Model.Udpcl'], [c_recv(arr) for (arr, _o) in recv_cases], 'run_recv', chunk=60)
+    run.phase('recv:real(%d)' % len(recv_cases))
+    model = chk.coq_eval('recv', ['Model.Udpcl'], [c_recv(arr) for (arr, _o) in recv_cases], 'run_recv', chunk=max(30, -(-len(recv_cases) // 16)))
     for ((arrival, obs), mod) in zip(recv_cases, model):
         (m_trace, m_queue, m_prog) = mod
         if any(code == 2 for (_n, code) in m_trace):
@@ -798,6 +837,7 @@ def run_all(chk):
         elif obs['progress'] is not None and canon_prog(obs['progress']) != canon_prog(m_prog):
             run.note_mismatch('recv', 'crafted %s: transfers in progress differ: model %s real %s' % (
                 [(p, d.hex()[:40]) for (p, d) in arrival], canon_prog(m_prog), canon_prog(obs['progress'])))
+    run.phase('recv:coq')
     chk.obligation('correspondence:recv', not run.mismatch.get('recv'), '; '.join(run.mismatch.get('recv', [])[:3]))
     return run
 
@@ -808,7 +848,7 @@ def search_more(chk):
     run = Runner(chk)
     found = False
     for case in gen_send_cases(chk, scale=10):
-        (dgrams, term) = real_send(case[0], case[1], mkdata(case[2], case[3]))
+        (dgrams, term) = real_send(case[0], case[1], gen_data(case[2], case[3]))
         if run.check_send(case, dgrams, term):
             found = True
     if found:
@@ -833,7 +873,7 @@ def replay(chk, path):
     why = None
     if suite == 'send':
         case = tuple(obj['case'])
-        (dgrams, term) = real_send(case[0], case[1], mkdata(case[2], case[3]))
+        (dgrams, term) = real_send(case[0], case[1], gen_data(case[2], case[3]))
         print('replay send mtu=%s xid=%d seed=%d len=%d -> %s, %d datagram(s) of sizes %s' % (
             case + ('finished' if term else 'DID NOT FINISH', len(dgrams), [len(d) for d in dgrams][:10])))
         why = run.check_send(case, dgrams, term)
@@ -863,7 +903,9 @@ def main():
     if chk.args.replay:
         replay(chk, chk.args.replay)
         return
+    t_props = (time.time(), sum(os.times()[:4]))
     props_ok = chk.coq_props()
+    t_props = dict(wall_s=round(time.time() - t_props[0], 1), cpu_s=round(sum(os.times()[:4]) - t_props[1], 1))
     (tr_ok, tr_err) = chk.translate_ok('udpclbudget')
     if not props_ok:
         # the model must keep evaluating when a proof broke
@@ -893,6 +935,7 @@ def main():
         for (sig, what) in sorted(run.pending.items()):
             print('PENDING-FINDING (reported, not yet in known_findings.json): %s -- %s' % (sig, what[:300]))
     chk.coverage['translator'] = dict(ok=tr_ok, error=tr_err)
+    chk.coverage['phase_seconds'] = dict(coq_props=t_props, **(run.phases if run is not None else {}))
     chk.finish(
         rule=('send: grid of MTU x bundle length x transfer id at every boundary of the fit test (mtu-2..mtu+1), of the segment size '
               '(k*remain-1,0,+1 for each head-size class of the total), of offsets / fragment lengths crossing 23/24 and 255/256, '
@@ -915,7 +958,7 @@ def main():
                    'after completion the transfer entry is deleted: a repeated segment starts a new entry that stays in progress forever, and '
                    'the full set repeated queues a second intact copy; a different total for a key in progress raises ValueError out of '
                    '_recv_datagram and drops the rest of that datagram: modelled and compared, outside the property quantifier',
-                   'long bundles (> %d octets) are compared per datagram by (length, first 24 octets, 32-bit digest) computed on both sides' % BIG]),
+                   'datagrams of bundles longer than %d octets are compared by (length, first 24 octets, 32-bit digest over all octets) computed on both sides, shorter ones octet for octet' % FULL]),
         assumptions=['harness stubs for dbus, gi.repository.GLib, portion are trusted to behave as the real libraries (Lib/IvlProofs pins Lib/Ivl to the portion stub on examples)',
                      'cbor2 6.1.4 C encoder/decoder is mirrored by Lib/Cbor.v (shortest heads; subset without floats, indefinite-length strings/maps, tag semantics) and validated by correspondence only',
                      'translator translate/targets/udpclbudget.py is trusted; bounded by the octet-for-octet differential run of every translated definition through send_transfer',
